@@ -7,7 +7,7 @@ from mc.common import Result
 from mc import queued
 
 PID = "C14"
-ALPHA = [("post_fifo", x) for x in "ABCFGT"] + [("post_lifo", x) for x in "ABCFHT"] + [("next_rtc",), ("complete_circuit",)]
+ALPHA = [("post_fifo", x) for x in "ABCFGT"] + [("post_lifo", x) for x in "ABCFHT"] + [("post_same", "A")] + [("next_rtc",), ("complete_circuit",)]
 
 
 def run(tier):
